@@ -14,8 +14,9 @@ PROPS = {
     "C17": {
         "technique": "complete finite tables by decide +kernel over regenerated switch tables, lifted to forall; exhaustive differential of all three conversions",
         "level_text": "Lean theorems: wire->os->wire and os->wire->os identities and agreement with hand-written POSIX/Go reference tables for all 2^16 wire words and all 28672 os modes, proved by complete kernel evaluation of the interpreter instantiated with the switch tables regenerated from stat.go/client.go; exhaustive correspondence of the real functions against the model over the same domains.",
-        "level_note": "Trusted: Lean kernel; translator (bitMapFunc shape recogniser); Nat-for-uint32 modelling (covered by the exhaustive differential); POSIX and os.FileMode constants transcribed by hand. Partial: attributes reported for host file kinds and SETSTAT application are checked by correspondence on the kinds the sandbox can create.",
-        "units": ["Mode", "Consts"],
+        "level_note": "Trusted: Lean kernel; translator (bitMapFunc shape recogniser); Nat-for-uint32 modelling (covered by the exhaustive differential); POSIX and os.FileMode constants transcribed by hand. SETSTAT/FSETSTAT: theorems setstat_applies_exactly_flagged / fsetstat_applies_exactly_flagged over the regenerated step list (all flag words). Partial: attributes reported for host file kinds (regular, dir, symlink, fifo, socket, char and block device, setuid/setgid/sticky) and the long-name agreement are checked by correspondence only, on the kinds the sandbox can create.",
+        "units": ["Mode", "Consts", "Setstat"],
+        "modules": ["C17", "C17Setstat"],
         "trusted": ["decide +kernel over complete finite tables (kernel evaluation, no native code), lifted by allRange_spec",
                     "Nat bit operations stand for Go uint32 on values < 2^32 (exhaustive differential covers every value)"],
         "assumptions": ["os.FileMode bit values and POSIX S_IF* constants as transcribed in lean/Sftp/Spec/Mode.lean",
